@@ -22,6 +22,8 @@ import (
 	"sync/atomic"
 	"time"
 
+	json "github.com/go-json-experiment/json"
+
 	"verif/hooks"
 	"verif/run"
 )
@@ -79,6 +81,9 @@ func prepare(dir, tier string, seed int64) error {
 		self = nb // golden results do not need the detector; a -race process costs ~20x more to start here
 	}
 	cs := catalogue()
+	if tier != "thorough" {
+		return prepareBatched(dir, self, cs)
+	}
 	out := make(map[string]result, len(cs))
 	var mu sync.Mutex
 	var firstErr atomic.Value
@@ -134,7 +139,65 @@ func noRaceBin() string {
 // raceShards is the number of worker shards that run under the race detector; the others run
 // the same histories in the plain build (about 16x cheaper here), where they still compare
 // every call with its golden result, keep the pool-poisoning hooks on and re-hash returned data.
-const raceShards = 6
+const raceShards = 8
+
+// prepareBatched (quick tier): starting ~900 processes costs more than everything else in this
+// check (process start-up is dear here when 16 start at once), so the golden results come from
+// 2 x 24 fresh processes: process (r, rev) runs the calls i with i %% 24 == r, once in ascending
+// and once in descending order.  The two results of every call must agree - a call whose result
+// depends on what ran before it in the same process shows up right here - and the agreed value
+// is the golden one.  The thorough tier keeps one fresh process per call.
+func prepareBatched(dir, self string, cs []call) error {
+	const m = 24
+	type res struct {
+		r, rev int
+		out    map[string]result
+		err    error
+	}
+	ch := make(chan res, 2*m)
+	sem := make(chan struct{}, 8)
+	for r := 0; r < m; r++ {
+		for rev := 0; rev < 2; rev++ {
+			go func(r, rev int) {
+				sem <- struct{}{}
+				defer func() { <-sem }()
+				cmd := exec.Command(self, "-golden-batch", fmt.Sprint(r), fmt.Sprint(m), fmt.Sprint(rev))
+				cmd.Env = append(os.Environ(), "GORACE=halt_on_error=0 log_path="+filepath.Join(dir, "race-golden"))
+				b, err := cmd.Output()
+				o := map[string]result{}
+				if err == nil {
+					err = stdjson.Unmarshal(b, &o)
+				}
+				ch <- res{r, rev, o, err}
+			}(r, rev)
+		}
+	}
+	var outs [2]map[string]result
+	outs[0], outs[1] = map[string]result{}, map[string]result{}
+	for i := 0; i < 2*m; i++ {
+		x := <-ch
+		if x.err != nil {
+			return fmt.Errorf("golden batch %d/%d: %v", x.r, x.rev, x.err)
+		}
+		for k, v := range x.out {
+			outs[x.rev][k] = v
+		}
+	}
+	if len(outs[0]) != len(cs) || len(outs[1]) != len(cs) {
+		return fmt.Errorf("golden batches returned %d and %d results for %d calls", len(outs[0]), len(outs[1]), len(cs))
+	}
+	var mismatches []string
+	for i := range cs {
+		c := &cs[i]
+		if !equalResult(c, outs[0][c.name], outs[1][c.name]) {
+			mismatches = append(mismatches, fmt.Sprintf("%s: %q/%q in ascending order, %q/%q in descending order", c.name, run.Trunc(outs[0][c.name].Out, 200), outs[0][c.name].Err, run.Trunc(outs[1][c.name].Out, 200), outs[1][c.name].Err))
+		}
+	}
+	mb, _ := stdjson.Marshal(mismatches)
+	os.WriteFile(filepath.Join(dir, "golden_mismatches.json"), mb, 0o644)
+	b, _ := stdjson.Marshal(outs[0])
+	return os.WriteFile(goldenPath(dir), b, 0o644)
+}
 
 func loadGolden(w *run.W) map[string]result {
 	goldenMu.Lock()
@@ -366,6 +429,17 @@ func post(p *run.Parent) {
 				"the race detector reported a data race (log %s):\nWARNING: DATA RACE%s", f, run.Trunc(blk, 3000))
 		}
 	}
+	if b, err := os.ReadFile(filepath.Join(p.Dir, "golden_mismatches.json")); err == nil {
+		var ms []string
+		stdjson.Unmarshal(b, &ms)
+		for i, m := range ms {
+			if i < 5 {
+				p.AddViolation("golden", "result-depends-on-history", map[string]string{"mode": "golden-batches"}, map[string]string{"call": strings.SplitN(m, ":", 2)[0]},
+					"the same call gives different results in two fresh processes that ran the same calls in opposite orders: %s", m)
+			}
+		}
+		p.Counters["golden_results_cross_checked"] = 1
+	}
 	if b, _ := os.ReadFile(filepath.Join(p.Dir, "detector_active")); string(b) == "1" {
 		p.Counters["race_detector_selftest_reported"] = 1
 	}
@@ -413,8 +487,10 @@ var M = &run.Monitor{
 		}
 		return ""
 	},
-	WorkerEnv: func(dir string) []string { return []string{"GORACE=halt_on_error=0 log_path=" + filepath.Join(dir, "race"), "C18_DIR=" + dir} },
-	Post:      post,
+	WorkerEnv: func(dir string) []string {
+		return []string{"GORACE=halt_on_error=0 log_path=" + filepath.Join(dir, "race"), "C18_DIR=" + dir}
+	},
+	Post: post,
 	Floors: func(c map[string]int64, tier string) []string {
 		var u []string
 		need := func(k string, n int64) {
@@ -450,6 +526,32 @@ func main() {
 		cs := catalogue()
 		r := cs[i].fn(func(string, func() []byte) {})
 		b, _ := stdjson.Marshal(r)
+		os.Stdout.Write(b)
+		return
+	}
+	if len(os.Args) == 5 && os.Args[1] == "-golden-batch" {
+		// results of the calls i with i % m == r, run in ascending (rev=0) or descending (rev=1) order
+		var r, m, rev int
+		fmt.Sscan(os.Args[2], &r)
+		fmt.Sscan(os.Args[3], &m)
+		fmt.Sscan(os.Args[4], &rev)
+		cs := catalogue()
+		var idx []int
+		for i := range cs {
+			if i%m == r {
+				idx = append(idx, i)
+			}
+		}
+		if rev == 1 {
+			for a, b := 0, len(idx)-1; a < b; a, b = a+1, b-1 {
+				idx[a], idx[b] = idx[b], idx[a]
+			}
+		}
+		out := map[string]result{}
+		for _, i := range idx {
+			out[cs[i].name] = cs[i].fn(func(string, func() []byte) {})
+		}
+		b, _ := stdjson.Marshal(out)
 		os.Stdout.Write(b)
 		return
 	}
@@ -489,16 +591,22 @@ func main() {
 	}
 	run.Def(M, "history", runHistory)
 	M.Gen = func(w *run.W) {
+		if w.Shard%2 == 1 {
+			// the process-wide experimental switch must not change any result of the catalogue (no value in it
+			// carries a format tag); it makes every call copy its option list, which is where aliasing can creep in
+			json.ExperimentalGlobalSupportFormatTag(true)
+			w.Count("workers_with_global_format_tag_switch", 1)
+		}
 		if raceBuild {
 			w.Count("workers_under_race_detector", 1)
 		} else {
 			w.Count("workers_plain_build", 1)
 		}
-		nSeq, nConc, seqLen, concLen, heavyLen, heavyN := w.Pick(8, 60), w.Pick(8, 60), w.Pick(300, 500), w.Pick(40, 60), w.Pick(150, 400), w.Pick(12, 60)
+		nSeq, nConc, seqLen, concLen, heavyLen, heavyN := w.Pick(20, 150), w.Pick(20, 150), w.Pick(300, 500), w.Pick(40, 60), w.Pick(200, 400), w.Pick(40, 120)
 		if raceBuild {
 			// under the detector every operation costs an order of magnitude more: fewer, shorter histories,
 			// weighted towards the concurrent ones (that is where it can see something the plain build cannot)
-			nSeq, nConc, seqLen, concLen, heavyLen, heavyN = w.Pick(1, 6), w.Pick(2, 16), w.Pick(120, 300), w.Pick(20, 40), w.Pick(30, 120), w.Pick(2, 12)
+			nSeq, nConc, seqLen, concLen, heavyLen, heavyN = w.Pick(4, 30), w.Pick(8, 60), w.Pick(200, 300), w.Pick(30, 40), w.Pick(60, 200), w.Pick(4, 24)
 		}
 		for i := 0; i < max(nSeq, nConc); i++ {
 			r := w.Rand("hist", w.Shard, i)
